@@ -16,11 +16,16 @@ pub enum Error {
     RequestNotFound { message_id: rpc::MessageId },
     MessageIdCollision { message_id: rpc::MessageId },
     ReadMessage(ReadError),
-    Transport,
+    Transport(IoError),
     DequeueMessage,
     EnqueueMessage,
     Rpc,
 }
+// std::io::{Error, ErrorKind} under the names the code uses
+pub mod io { pub use super::IoErrorKind as ErrorKind; pub use super::IoError as Error; }
+pub struct IoError { pub kind: IoErrorKind }
+pub enum IoErrorKind { UnexpectedEof, ConnectionReset, ConnectionAborted, BrokenPipe, NotConnected, Other }
+impl IoError { pub fn kind(&self) -> (r: IoErrorKind) ensures r == self.kind { match self.kind { IoErrorKind::UnexpectedEof => IoErrorKind::UnexpectedEof, IoErrorKind::ConnectionReset => IoErrorKind::ConnectionReset, IoErrorKind::ConnectionAborted => IoErrorKind::ConnectionAborted, IoErrorKind::BrokenPipe => IoErrorKind::BrokenPipe, IoErrorKind::NotConnected => IoErrorKind::NotConnected, IoErrorKind::Other => IoErrorKind::Other } } }
 impl From<ReadError> for Error { #[verifier::external_body] fn from(e: ReadError) -> (r: Error) { unimplemented!() } }
 
 // (defined at the crate root and re-exported: deriving Structural inside a module trips a Verus internal error)
